@@ -13,18 +13,19 @@ import (
 
 // The default field-wise comparer (JsonDBMapKey.proxyComparer -> defaultComparer) has no exported accessor.
 // It is obtained from where the real store keeps it: jsondb.NewJsonBtreeMapKey(...) hands the method value to
-// the B-tree, whose `comparer` field is read here by reflection. The comparer's whole memory are the two slice
-// fields defaultComparerSortedFields / defaultCoercedFieldsComparers of the JsonDBMapKey; a new instance has
-// them nil (checked below together with "no other state"), so zeroing them gives a fresh comparer without
-// paying for a new store per evaluation. If /repo renames any of this the harness stops with exit 2.
+// the B-tree, whose `comparer` field is read here by reflection. Whatever the comparer remembers lives in the
+// JsonDBMapKey instance it is bound to; a new default-order instance has every field except the embedded
+// JsonDBAnyKey zero (verified at setup), so zeroing those fields gives a fresh comparer without paying for a
+// new store per evaluation (no field names are assumed). The bridge pass (exported API only, really new
+// instances) must agree with what is computed this way. If /repo moves the B-tree's comparer field the harness
+// stops with exit 2 (no verdict).
 
 type defaultHandle struct {
-	db   *db
-	t    sop.Transaction
-	cmp  btree.ComparerFunc[map[string]any]
-	f1   *[]string
-	f2   *[]func(a, b any) int
-	dead bool
+	db    *db
+	t     sop.Transaction
+	cmp   btree.ComparerFunc[map[string]any]
+	state []reflect.Value // settable views of all JsonDBMapKey fields except JsonDBAnyKey
+	dead  bool
 }
 
 var defH *defaultHandle
@@ -46,20 +47,12 @@ func setupDefault() *defaultHandle {
 		if name == "JsonDBAnyKey" {
 			continue
 		}
-		if !jv.Field(i).IsZero() {
+		f := jv.Field(i)
+		if !f.IsZero() {
 			harnessFail("new JsonDBMapKey has non-zero field " + name)
 		}
+		h.state = append(h.state, reflect.NewAt(f.Type(), unsafe.Pointer(f.UnsafeAddr())).Elem())
 	}
-	f1 := jv.FieldByName("defaultComparerSortedFields")
-	f2 := jv.FieldByName("defaultCoercedFieldsComparers")
-	if !f1.IsValid() || !f2.IsValid() || f1.Type() != reflect.TypeOf([]string(nil)) || f2.Type() != reflect.TypeOf([]func(a, b any) int(nil)) {
-		harnessFail("JsonDBMapKey cache fields not found / changed type")
-	}
-	if jv.NumField() != 5 {
-		harnessFail(fmt.Sprintf("JsonDBMapKey has %d fields, expected 5 (new state to reset?)", jv.NumField()))
-	}
-	h.f1 = (*[]string)(unsafe.Pointer(f1.UnsafeAddr()))
-	h.f2 = (*[]func(a, b any) int)(unsafe.Pointer(f2.UnsafeAddr()))
 	// 2. the comparer the B-tree calls.
 	v := reflect.ValueOf(j.JsonDBAnyKey.BtreeInterface)
 	for depth := 0; depth < 8 && h.cmp == nil; depth++ {
@@ -88,11 +81,6 @@ func setupDefault() *defaultHandle {
 	if h.cmp == nil {
 		harnessFail("comparer not found")
 	}
-	// 3. the function really is bound to j: using it must populate j's cache fields.
-	h.cmp(map[string]any{"a": 1.0}, map[string]any{"a": 2.0})
-	if *h.f1 == nil || *h.f2 == nil {
-		harnessFail("calling the extracted comparer did not touch the instance's cache fields")
-	}
 	return h
 }
 
@@ -100,8 +88,9 @@ func freshDefaultComparer() cmpFn {
 	if defH == nil {
 		defH = setupDefault()
 	}
-	*defH.f1 = nil
-	*defH.f2 = nil
+	for _, f := range defH.state {
+		f.SetZero()
+	}
 	return cmpFn(defH.cmp)
 }
 
